@@ -87,7 +87,19 @@ func (c *configLoader) Load(config any) error {
 	}
 
 	if err := loadAndMergeConfig(func() (*koanf.Koanf, error) {
-		return koanfFromEnv(c.o.envPrefix)
+		konf, err := koanfFromEnv(c.o.envPrefix)
+		if err != nil {
+			return nil, err
+		}
+
+		// list elements built from environment variables carry dotted keys (`config.subject`);
+		// expand them, otherwise they are dropped when the element does not exist yet
+		expanded := koanf.New(".")
+		if err = expanded.Load(confmap.Provider(expandKeys(konf.Raw()).(map[string]any), ""), nil); err != nil { //nolint:forcetypeassert
+			return nil, err
+		}
+
+		return expanded, nil
 	}); err != nil {
 		return err
 	}
@@ -101,6 +113,26 @@ func (c *configLoader) Load(config any) error {
 			WeaklyTypedInput: true,
 		},
 	})
+}
+
+func expandKeys(val any) any {
+	switch t := val.(type) {
+	case map[string]any:
+		result := make(map[string]any, len(t))
+		for k, v := range t {
+			result = mergeMaps(result, map[string]any{k: expandKeys(v)})
+		}
+
+		return result
+	case []any:
+		for i, v := range t {
+			t[i] = expandKeys(v)
+		}
+
+		return t
+	default:
+		return val
+	}
 }
 
 func (c *configLoader) configFile() (string, error) {
